@@ -8,8 +8,10 @@ import lanes
 
 ITYPES = [("i8", 1, True), ("u8", 1, False), ("i16", 2, True), ("u16", 2, False),
           ("i32", 4, True), ("u32", 4, False), ("i64", 8, True), ("u64", 8, False)]
+UN_X = ["op++", "op--", "op++post", "op--post", "op++old", "op--old", "op+u"]
 UN = ["neg", "abs", "incr", "decr", "sign", "op-u"]
 BIN = ["add", "sub", "mul", "min", "max", "fmin", "fmax", "sadd", "ssub", "avg", "avgr", "op+", "op-", "op*"]
+BIN_X = ["op+=", "op-=", "op*="]
 DIV = ["divmod", "op/%"]
 TER = ["fma", "fms", "fnma", "fnms"]
 MSK = ["incr_if", "decr_if"]
@@ -49,6 +51,9 @@ def make_plan(ctx):
         for op in BIN:
             for ra, rb in rows:
                 plan.append("ew %s %s 0 %s %s - -" % (op, t, ra, rb))
+        for op in BIN_X:   # member operators share the kernels of add/sub/mul: thinned rows
+            for ra, rb in rows[:: ctx.q(4, 2)]:
+                plan.append("ew %s %s 0 %s %s - -" % (op, t, ra, rb))
         # div/mod: no zero divisor, no MIN/-1
         m = (1 << bits) - 1
         mn = 1 << (bits - 1)
@@ -57,10 +62,12 @@ def make_plan(ctx):
         for op in DIV:
             for ra, rb in drows:
                 plan.append("ew2 %s %s 0 %s %s - -" % (op, t, ra, rb))
+        for ra, rb in drows[:: ctx.q(4, 2)]:
+            plan.append("ew2 op/%%= %s 0 %s %s - -" % (t, ra, rb))
         # unary + masked
         lat = vf.int_lattice(bits) if bits > 8 else list(range(256))
         un = [(a,) for a in lat] + [(ctx.rng.getrandbits(bits),) for _ in range(ctx.q(128, 4096))]
-        for op in UN:
+        for op in UN + UN_X:
             for (ra,) in vf.rows_from(un, nb, shifts):
                 plan.append("ew %s %s 0 %s - - -" % (op, t, ra))
         msk = []
